@@ -1450,4 +1450,14 @@ neutral('n7-shutdown-then-flag', S,
     "        # Signal shutdown\n        self._is_running = False\n\n        # Shutdown the queue to unblock any pending get() operations\n        if self.event_queue:\n            self.event_queue.shutdown()\n",
     "        # Shutdown the queue to unblock any pending get() operations\n        if self.event_queue is not None:\n            self.event_queue.shutdown()\n\n        # Signal shutdown\n        self._is_running = False\n",
     'two independent synchronous steps of stop() swapped')
+
+# ---- round 8 obligations
+mut('c03-walk-stops-at-signalled-ancestor', 'C03', ['C03.3'], S,
+    "                parent_event.event_mark_complete_if_all_handlers_completed()\n\n            # Move up the chain\n            current = parent_event\n",
+    "                parent_event.event_mark_complete_if_all_handlers_completed()\n            else:\n                break\n\n            # Move up the chain\n            current = parent_event\n",
+    'the parent walk stops at an ancestor that is already signalled: the ancestors above it are not re-checked')
+mut('c16-deadline-by-truthiness', 'C16', ['C16.1'], S,
+    "            await asyncio.wait_for(join_task, timeout=remaining_timeout)\n",
+    "            await asyncio.wait_for(join_task, timeout=(timeout if timeout else None))\n",
+    'stop(timeout=0) waits for the queue without bound: a truthiness test on the timeout treats 0 as "no timeout"')
 MUTANTS[:] = [m for m in MUTANTS if m is not None]
